@@ -119,6 +119,18 @@ fn mutate(c: &mut Content, m: &[&str]) {
                 }
             }
         }
+        "freeold" => {
+            // a stored identifier listed as free under its previous generation
+            if na > 0 {
+                let a = arch(c, 1);
+                if !c.archs[a].rows.is_empty() {
+                    let k = n(2) as usize % c.archs[a].rows.len();
+                    let id = c.archs[a].rows[k].0;
+                    c.archs[a].rows[k].0 .1 = id.1.wrapping_add(1);
+                    c.free.push(id);
+                }
+            }
+        }
         "len" => c.length = addi(c.length, si(1)),
         "alen" => {
             if na > 0 {
@@ -931,7 +943,15 @@ fn main() {
         let line: &str = &resolved;
         let is_fault = line.starts_with("fault ");
         let r = catch_unwind(AssertUnwindSafe(|| {
-            let _scope = brood_verif_harness::alloc_audit::enter(1);
+            // Parallel queries are started from this thread: rayon injects the job into its pool here and its
+            // injector allocates queue blocks that live as long as the pool.  Those are rayon's, not the
+            // library's, so the main thread's allocations are not attributed to the library during these ops
+            // (the work itself runs on the pool's threads, which the audit never attributes).
+            let _scope = if line.starts_with("pqry ") || line.starts_with("pqwr ") {
+                None
+            } else {
+                Some(brood_verif_harness::alloc_audit::enter(1))
+            };
             let mut o = String::new();
             apply(&mut st, line, &mut o);
             o
